@@ -330,9 +330,11 @@ func (e *Engine) callOutWrites(kind string, set map[string]bool) {
 	for _, w := range callOutExtraWrites[kind] {
 		set[w] = true
 	}
-	if c := e.ifaceSpecs[kind]; c != nil {
-		for _, m := range e.expandFrames(c.Modifies) {
-			set[strings.TrimPrefix(m, "new:")] = true
+	for name, c := range e.ifaceSpecs {
+		if name == kind || strings.HasPrefix(name, kind+" ") {
+			for _, m := range e.expandFrames(c.Modifies) {
+				set[strings.TrimPrefix(m, "new:")] = true
+			}
 		}
 	}
 }
